@@ -420,6 +420,7 @@ HexBodies == {<<BS, 120>> \o r \o f : r \in HexRuns, f \in HexFollow}
 HexChrBodies == {<<BS, 120>> \o r : r \in HexRuns}
 
 EscBodies == {<<BS, e>> : e \in SimpleEscChars \cup {48, 56, 57, 99, 101, 117, 85, 120, 88, 32, 65}}
+             \cup {<<>>, <<97, 98>>, <<BS, 110, 97>>, <<97, NL, 98>>}      \* empty, two characters, raw newline
 
 CatBodies == {<<97>>, <<195, 169>>, <<240, 159, 152, 128>>, <<BS, 49, 48, 49>>, <<BS, 120, 102, 102>>,
               <<BS, 120, 49, 48, 48>>, <<>>, <<BS, 49>>, <<56>>}
@@ -484,8 +485,8 @@ Start(ch) == [ctx |-> "start", chunk |-> ch]
 
 Init == IF Mode = "exh" THEN \E ch \in Chunks : cs = Start(ch) ELSE cs = Start(0)
 
-Enumerate == cs.ctx = "start" /\ Mode = "exh" /\ \E c \in ChunkCases(cs.chunk) : cs' = c
-Generate  == Mode = "sim" /\ \E k \in 1..4 : cs' = RandomCase(k)
+Enumerate == cs.ctx = "start" /\ Mode = "exh" /\ \E c \in ChunkCases(cs.chunk) : cs' = c @@ ("fam" :> cs.chunk.fam)
+Generate  == Mode = "sim" /\ \E k \in 1..4 : cs' = RandomCase(k) @@ ("fam" :> "rnd")
 Next == Enumerate \/ Generate
 Spec == Init /\ [][Next]_cs
 
@@ -498,7 +499,7 @@ Inv_NoAbort == IsCase => Model(cs, {}).o # "abort"
 (* bodies that cannot be rendered as one token are never claimed to be valid *)
 Inv_Wf == IsCase => (Decl(cs).o = "ok" => \A i \in 1..Len(cs.parts) : ScanOk(cs.parts[i].body, IF cs.ctx = "str" THEN DQ ELSE SQ))
 
-Emit == PrintT("VCASE " \o ToJson([ctx |-> cs.ctx, targ |-> cs.targ, parts |-> cs.parts, decl |-> Decl(cs),
+Emit == PrintT("VCASE " \o ToJson([fam |-> cs.fam, ctx |-> cs.ctx, targ |-> cs.targ, parts |-> cs.parts, decl |-> Decl(cs),
                                    impl |-> Model(cs, Devs), fired |-> Fired(cs)]))
 Inv_Emit == IsCase => Emit
 =============================================================================
